@@ -1,10 +1,12 @@
 package certh
 
 import (
+	"bytes"
 	"crypto/x509"
 	"encoding/hex"
 	"encoding/pem"
 	"fmt"
+	"math/big"
 	"sort"
 
 	sdk "github.com/cosmos/cosmos-sdk/types"
@@ -14,15 +16,37 @@ import (
 	ctypes "github.com/ovrclk/akash/x/cert/types"
 )
 
-// entry is one record of the projected registry: what one raw (key, value) pair of the certificate store IS,
-// decided from the stored VALUE alone (the x509 body names its owner (CN) and serial), never from the key
-// layout -- so the projection does not share the key decoding under test.
+// entry is one record of the projected registry, one raw (key, value) pair of the certificate store:
+//   - what certificate it HOLDS, decided from the stored value alone (o, s, b: the x509 body names its owner
+//     (CN) and serial), and its state;
+//   - under which owner+serial it is STORED (ko, ks), decoded here from the raw key by the layout the property
+//     documents (0x01 | owner(20) | big-endian serial bytes) -- the harness' own decoding, not the keeper's;
+//     "?" when the key does not decode to a known owner / serial class (a different layout).
 type entry struct {
 	O   string `json:"o"`
 	S   string `json:"s"`
 	St  string `json:"st"`
 	B   int    `json:"b"`
+	Ko  string `json:"ko"`
+	Ks  string `json:"ks"`
 	Key string `json:"key"` // raw store key, hex (information)
+}
+
+// keyIdentity decodes a raw store key by the documented layout.
+func (u *universe) keyIdentity(key []byte) (ko, ks string) {
+	ko, ks = "?", "?"
+	if len(key) < 1+sdk.AddrLen || key[0] != 0x01 {
+		return
+	}
+	for name, a := range u.addr {
+		if bytes.Equal(a.Bytes(), key[1:1+sdk.AddrLen]) {
+			ko = name
+		}
+	}
+	if cls, ok := u.bySer[new(big.Int).SetBytes(key[1+sdk.AddrLen:]).String()]; ok {
+		ks = cls
+	}
+	return
 }
 
 // item is one certificate as returned by a query: which certificate it is (o, s, b: from the returned body),
@@ -110,23 +134,33 @@ func (c *chain) project(ctx sdk.Context, u *universe) (entries []entry, raw stri
 		if o == "?" || s == "?" || b == 0 {
 			return nil, "", fmt.Errorf("unprojectable certificate under key %x (owner %s serial %s body %d)", it.Key(), o, s, b)
 		}
-		entries = append(entries, entry{O: o, S: s, St: stateName(val.State), B: b, Key: hex.EncodeToString(it.Key())})
+		ko, ks := u.keyIdentity(it.Key())
+		entries = append(entries, entry{O: o, S: s, St: stateName(val.State), B: b, Ko: ko, Ks: ks, Key: hex.EncodeToString(it.Key())})
 		raw += hex.EncodeToString(it.Key()) + "=" + hex.EncodeToString(it.Value()) + ";"
 	}
 	sort.SliceStable(entries, func(i, j int) bool {
 		if entries[i].O != entries[j].O {
 			return entries[i].O < entries[j].O
 		}
-		return entries[i].S < entries[j].S
+		if entries[i].S != entries[j].S {
+			return entries[i].S < entries[j].S
+		}
+		return entries[i].Key < entries[j].Key
 	})
 	return entries, raw, nil
 }
 
 // stateID is the canonical identifier of a projected registry (same text the check derives from TLC's states).
+// A record stored where the documented layout puts its certificate (or under a key of another layout) is
+// "o/s=<state><body>"; a record stored under the key of ANOTHER owner+serial also names that place.
 func stateID(entries []entry) string {
 	parts := make([]string, 0, len(entries))
 	for _, e := range entries {
-		parts = append(parts, fmt.Sprintf("%s/%s=%s%d", e.O, e.S, e.St[:1], e.B))
+		p := fmt.Sprintf("%s/%s=%s%d", e.O, e.S, e.St[:1], e.B)
+		if e.Ko != "?" && e.Ks != "?" && (e.Ko != e.O || e.Ks != e.S) {
+			p += fmt.Sprintf("@%s/%s", e.Ko, e.Ks)
+		}
+		parts = append(parts, p)
 	}
 	sort.Strings(parts)
 	id := ""
